@@ -7,7 +7,7 @@ CONSTANTS
   MaxPersist = 0
   PersistNames = {"x01"}
   PersistFlags = {"on"}
-  PersistPreset = "wide"
+  PersistPreset = "all"
   DefaultSet = {FALSE}
   PreSet = {"none"}
   FileDeny = {"f_alpha", "f_b1", "f_osrel", "f_sym", "f_ident"}
